@@ -22,8 +22,8 @@ open Sif Sif.Unlock Sif.Spec.C15 Sif.Proofs.C15
     units after, `L = 0`, or the provider's stored requests that are matured and unexpired at `h`
     (specification meaning, mathematical integers) total at least `burned` — inside the envelope.
     Also: an accepted removal under a lock period consumed what it burned (`consumedOK`). -/
-theorem remove_requires_matured (s s' : St) (h : Int) (k : String) (w : Nat)
-    (hok : step s h (.removeUnits k w) = (s', .ok)) :
+theorem remove_requires_matured (s s' : St) (h : Int) (k : String) (w : Nat) (hc : Health)
+    (hok : step s h (.removeUnits k w hc) = (s', .ok)) :
     ∃ lp, s.lps k = some lp ∧ unitsOf (s'.lps k) ≤ lp.units ∧
       removeOK s.L s.C h lp.unlocks (lp.units - unitsOf (s'.lps k)) true = true ∧
       consumedOK s.L lp.unlocks (unlocksOf (s'.lps k)) (lp.units - unitsOf (s'.lps k)) true = true := by
@@ -32,8 +32,8 @@ theorem remove_requires_matured (s s' : St) (h : Int) (k : String) (w : Nat)
   exact ⟨lp, hlp, removal_accepted hc⟩
 
 /-- the same for `MsgRemoveLiquidity` (by basis points) -/
-theorem remove_requires_matured_wbasis (s s' : St) (h : Int) (k : String) (wb a : Int)
-    (hok : step s h (.remove k wb a) = (s', .ok)) :
+theorem remove_requires_matured_wbasis (s s' : St) (h : Int) (k : String) (wb a : Int) (hc : Health)
+    (hok : step s h (.remove k wb a hc) = (s', .ok)) :
     ∃ lp, s.lps k = some lp ∧ unitsOf (s'.lps k) ≤ lp.units ∧
       removeOK s.L s.C h lp.unlocks (lp.units - unitsOf (s'.lps k)) true = true ∧
       consumedOK s.L lp.unlocks (unlocksOf (s'.lps k)) (lp.units - unitsOf (s'.lps k)) true = true := by
@@ -43,11 +43,11 @@ theorem remove_requires_matured_wbasis (s s' : St) (h : Int) (k : String) (wb a 
 
 /-- spelled out: under a lock period, inside the envelope, the burned units are covered by matured,
     unexpired requests -/
-theorem remove_requires_matured_explicit (s s' : St) (h : Int) (k : String) (w : Nat) (lp : LP)
+theorem remove_requires_matured_explicit (s s' : St) (h : Int) (k : String) (w : Nat) (hc : Health) (lp : LP)
     (hlp : s.lps k = some lp) (hL : s.L ≠ 0) (henv : inEnvelope s.L s.C h lp.unlocks = true)
-    (hok : step s h (.removeUnits k w) = (s', .ok)) :
+    (hok : step s h (.removeUnits k w hc) = (s', .ok)) :
     lp.units - unitsOf (s'.lps k) ≤ usable s.L s.C h lp.unlocks := by
-  obtain ⟨lp', hlp', _, hr, _⟩ := remove_requires_matured s s' h k w hok
+  obtain ⟨lp', hlp', _, hr, _⟩ := remove_requires_matured s s' h k w hc hok
   rw [hlp] at hlp'; cases hlp'
   unfold removeOK allowed at hr
   simp [henv, hL] at hr
@@ -56,18 +56,18 @@ theorem remove_requires_matured_explicit (s s' : St) (h : Int) (k : String) (w :
 /-- a refused (or panicking) message changes nothing (transaction wrapper) -/
 theorem refused_changes_nothing (s : St) (h : Int) (op : Op) (hr : (step s h op).2 ≠ .ok) :
     (step s h op).1 = s := by
-  have hc : ∀ k (r : Except Err (Option LP)), (commit s k r).2 ≠ .ok → (commit s k r).1 = s := by
+  have hcm : ∀ k (r : Except Err (Option LP)), (commit s k r).2 ≠ .ok → (commit s k r).1 = s := by
     intro k r hne
     cases r with
     | ok v => exact absurd rfl hne
     | error e => rfl
   cases op with
   | setParams L C => exact absurd rfl hr
-  | unlock k u => exact hc _ _ hr
-  | cancel k u => exact hc _ _ hr
-  | removeUnits k w => exact hc _ _ hr
-  | remove k wb a => exact hc _ _ hr
-  | add k m => exact hc _ _ hr
+  | unlock k u => exact hcm _ _ hr
+  | cancel k u => exact hcm _ _ hr
+  | removeUnits k w hc => exact hcm _ _ hr
+  | remove k wb a hc => exact hcm _ _ hr
+  | add k m => exact hcm _ _ hr
 
 /-! ### each_unit_once -/
 
@@ -101,27 +101,27 @@ theorem consume_each_record_once (any : Bool) (L : Nat) (h : Int) (rs : List Rec
 /-! ### exactness, refusal, aliasing, zero records -/
 
 /-- `MsgRemoveLiquidityUnits{WithdrawUnits = w}` that is accepted burns exactly `w` units -/
-theorem removeUnits_burns_exactly (s s' : St) (h : Int) (k : String) (w : Nat)
-    (hok : step s h (.removeUnits k w) = (s', .ok)) :
+theorem removeUnits_burns_exactly (s s' : St) (h : Int) (k : String) (w : Nat) (hc : Health)
+    (hok : step s h (.removeUnits k w hc) = (s', .ok)) :
     ∃ lp, s.lps k = some lp ∧ w ≤ lp.units ∧ unitsOf (s'.lps k) = lp.units - w := by
-  obtain ⟨o, hr, hs⟩ := commit_ok (show commit s k (removeUnitsH s.L s.C h (s.lps k) w) = (s', .ok) from hok)
-  obtain ⟨lp, hlp, hle, _, hc⟩ := removeUnitsH_ok_exact hr
+  obtain ⟨o, hr, hs⟩ := commit_ok (show commit s k (gate hc (removeUnitsH s.L s.C h (s.lps k) w)) = (s', .ok) from hok)
+  obtain ⟨lp, hlp, hle, _, hc⟩ := removeUnitsH_ok_exact (gate_ok hr)
   obtain ⟨_, hu, _⟩ := removeCore_ok hc
   subst hs
   exact ⟨lp, hlp, hle, by rw [set_same, hu]⟩
 
 /-- the refusing direction: under a lock period, inside the envelope, a removal of `w` units that
     the provider's matured, unexpired requests do not cover is NOT accepted, and nothing changes -/
-theorem remove_refused_when_short (s : St) (h : Int) (k : String) (w : Nat) (lp : LP)
+theorem remove_refused_when_short (s : St) (h : Int) (k : String) (w : Nat) (hc : Health) (lp : LP)
     (hlp : s.lps k = some lp) (hL : s.L ≠ 0) (henv : inEnvelope s.L s.C h lp.unlocks = true)
     (hw : w ≤ lp.units) (hshort : usable s.L s.C h lp.unlocks < w) :
-    (step s h (.removeUnits k w)).2 ≠ .ok ∧ (step s h (.removeUnits k w)).1 = s := by
-  have hne : (step s h (.removeUnits k w)).2 ≠ .ok := by
+    (step s h (.removeUnits k w hc)).2 ≠ .ok ∧ (step s h (.removeUnits k w hc)).1 = s := by
+  have hne : (step s h (.removeUnits k w hc)).2 ≠ .ok := by
     intro hok
-    have hst : step s h (.removeUnits k w) = ((step s h (.removeUnits k w)).1, .ok) := by rw [← hok]
-    obtain ⟨lp', hlp', _, hexact⟩ := removeUnits_burns_exactly _ _ h k w hst
+    have hst : step s h (.removeUnits k w hc) = ((step s h (.removeUnits k w hc)).1, .ok) := by rw [← hok]
+    obtain ⟨lp', hlp', _, hexact⟩ := removeUnits_burns_exactly _ _ h k w hc hst
     rw [hlp] at hlp'; cases hlp'
-    have := remove_requires_matured_explicit s _ h k w lp hlp hL henv hst
+    have := remove_requires_matured_explicit s _ h k w hc lp hlp hL henv hst
     rw [hexact] at this
     omega
   exact ⟨hne, refused_changes_nothing s h _ hne⟩
@@ -129,8 +129,8 @@ theorem remove_refused_when_short (s : St) (h : Int) (k : String) (w : Nat) (lp 
 /-- pointer aliasing: what an accepted removal leaves in the store is the list as CONSUMED by
     `UseUnlockedLiquidity` (records keep position and height, units only shrink), although that
     function received the provider record by value and its own zero-record filter is lost -/
-theorem removal_stores_consumed_records (s s' : St) (h : Int) (k : String) (w : Nat)
-    (hok : step s h (.removeUnits k w) = (s', .ok)) :
+theorem removal_stores_consumed_records (s s' : St) (h : Int) (k : String) (w : Nat) (hc : Health)
+    (hok : step s h (.removeUnits k w hc) = (s', .ok)) :
     ∃ lp, s.lps k = some lp ∧ ∀ lp', s'.lps k = some lp' →
       lp'.unlocks = (consume false s.L h (prune s.L s.C h lp.unlocks) (lp.units - lp'.units)).1 ∧
       shrinks (prune s.L s.C h lp.unlocks) lp'.unlocks = true := by
@@ -159,6 +159,97 @@ theorem zero_records_never_count (L C : Nat) (h : Int) (lp : LP) (u : Nat) (wb a
   · simp only [removeUnitsH, removeUnitsLP, hp]
   · simp only [removeH, removeLP, removeLP2, hp]
 
+/-! ### every decrease of a provider's units is a covered removal; a queued removal is refused -/
+
+/-- when the margin-health stage does not pass (the removal would be queued, is blocked, or the
+    handler panics there) the message is refused and NOTHING changes: in particular the unlock
+    records `UseUnlockedLiquidity` had just consumed and stored are rolled back, and no queue entry
+    survives (`types.ErrQueued` is an error) -/
+theorem removal_queued_is_refused (s : St) (h : Int) (k : String) (w : Nat) (wb a : Int) (hc : Health)
+    (hne : hc ≠ .pass) :
+    ((step s h (.removeUnits k w hc)).2 ≠ .ok ∧ (step s h (.removeUnits k w hc)).1 = s) ∧
+    ((step s h (.remove k wb a hc)).2 ≠ .ok ∧ (step s h (.remove k wb a hc)).1 = s) := by
+  have h1 : (step s h (.removeUnits k w hc)).2 ≠ .ok := by
+    intro hok
+    have hst : step s h (.removeUnits k w hc) = ((step s h (.removeUnits k w hc)).1, .ok) := by rw [← hok]
+    obtain ⟨o, hr, _⟩ := commit_ok (show commit s k (gate hc (removeUnitsH s.L s.C h (s.lps k) w)) = (_, .ok) from hst)
+    exact gate_not_pass hne o hr
+  have h2 : (step s h (.remove k wb a hc)).2 ≠ .ok := by
+    intro hok
+    have hst : step s h (.remove k wb a hc) = ((step s h (.remove k wb a hc)).1, .ok) := by rw [← hok]
+    obtain ⟨o, hr, _⟩ := commit_ok (show commit s k (gate hc (removeH s.L s.C h (s.lps k) wb a)) = (_, .ok) from hst)
+    exact gate_not_pass hne o hr
+  exact ⟨⟨h1, refused_changes_nothing s h _ h1⟩, ⟨h2, refused_changes_nothing s h _ h2⟩⟩
+
+/-- WHATEVER the message and whoever signed it: if it leaves some provider with fewer units than
+    before, then it was an accepted removal by that provider, the rule allowed the burned units
+    (matured, unexpired requests, inside the envelope) and they were consumed.  Unlock, cancel, add and
+    parameter messages, and messages of other providers, never lower a provider's units. -/
+theorem any_decrease_requires_matured (s : St) (h : Int) (op : Op) (k : String)
+    (hdec : unitsOf ((step s h op).1.lps k) < unitsOf (s.lps k)) :
+    ∃ lp, s.lps k = some lp ∧
+      removeOK s.L s.C h lp.unlocks (lp.units - unitsOf ((step s h op).1.lps k)) true = true ∧
+      consumedOK s.L lp.unlocks (unlocksOf ((step s h op).1.lps k)) (lp.units - unitsOf ((step s h op).1.lps k)) true = true := by
+  -- a committed handler result that keeps or raises the units of its own key cannot lower anybody's
+  have keep : ∀ (k0 : String) (r : Except Err (Option LP)),
+      (∀ o, r = .ok o → unitsOf (s.lps k0) ≤ unitsOf o) →
+      ¬ unitsOf ((commit s k0 r).1.lps k) < unitsOf (s.lps k) := by
+    intro k0 r hr hlt
+    cases r with
+    | error e => exact Nat.lt_irrefl _ hlt
+    | ok o =>
+      simp only [commit] at hlt
+      by_cases hk : k = k0
+      · subst hk; rw [set_same] at hlt; have := hr o rfl; omega
+      · rw [set_other s o hk] at hlt; exact Nat.lt_irrefl _ hlt
+  -- a removal: the state is unchanged unless accepted, and then only its own key moves
+  have removal : ∀ (k0 : String) (op0 : Op) (r : Except Err (Option LP)),
+      step s h op0 = commit s k0 r →
+      (∀ s', step s h op0 = (s', .ok) → ∃ lp, s.lps k0 = some lp ∧ unitsOf (s'.lps k0) ≤ lp.units ∧
+        removeOK s.L s.C h lp.unlocks (lp.units - unitsOf (s'.lps k0)) true = true ∧
+        consumedOK s.L lp.unlocks (unlocksOf (s'.lps k0)) (lp.units - unitsOf (s'.lps k0)) true = true) →
+      unitsOf ((step s h op0).1.lps k) < unitsOf (s.lps k) →
+      ∃ lp, s.lps k = some lp ∧
+        removeOK s.L s.C h lp.unlocks (lp.units - unitsOf ((step s h op0).1.lps k)) true = true ∧
+        consumedOK s.L lp.unlocks (unlocksOf ((step s h op0).1.lps k)) (lp.units - unitsOf ((step s h op0).1.lps k)) true = true := by
+    intro k0 op0 r hstep hacc hlt
+    cases r with
+    | error e => rw [hstep] at hlt; exact absurd hlt (Nat.lt_irrefl _)
+    | ok o =>
+      have hs : step s h op0 = (s.set k0 o, .ok) := by rw [hstep]; rfl
+      by_cases hk : k = k0
+      · subst hk
+        obtain ⟨lp, hlp, _, h1, h2⟩ := hacc _ hs
+        rw [hs]
+        exact ⟨lp, hlp, h1, h2⟩
+      · rw [hs] at hlt
+        simp only at hlt
+        rw [set_other s o hk] at hlt
+        exact absurd hlt (Nat.lt_irrefl _)
+  cases op with
+  | setParams L C => exact absurd hdec (Nat.lt_irrefl _)
+  | unlock k0 u =>
+    refine absurd hdec (keep k0 _ ?_)
+    intro o ho
+    obtain ⟨lp, hlp, hu⟩ := unlockH_ok ho
+    obtain ⟨ho', _⟩ := unlockLP_ok hu
+    rw [hlp, ho']; exact Nat.le_refl _
+  | cancel k0 u =>
+    refine absurd hdec (keep k0 _ ?_)
+    intro o ho
+    obtain ⟨lp, hlp, hu⟩ := cancelH_ok ho
+    obtain ⟨st, ho', _⟩ := cancelLP_ok hu
+    rw [hlp, ho']; exact Nat.le_refl _
+  | add k0 m =>
+    refine absurd hdec (keep k0 _ ?_)
+    intro o ho
+    obtain ⟨lp, ho', _, hle⟩ := addH_ok ho
+    rw [ho']; exact hle
+  | removeUnits k0 w hc =>
+    exact removal k0 _ _ rfl (fun s' hs' => remove_requires_matured s s' h k0 w hc hs') hdec
+  | remove k0 wb a hc =>
+    exact removal k0 _ _ rfl (fun s' hs' => remove_requires_matured_wbasis s s' h k0 wb a hc hs') hdec
+
 /-! ### outstanding_le_units -/
 
 /-- After every message of every history whose block heights do not decrease (and are valid int64
@@ -175,13 +266,14 @@ theorem outstanding_le_units (L C : Nat) (ops : List (Int × Op)) (hm : heightsM
 /-! ### lock_zero_free -/
 
 /-- With lock period 0 a removal is never refused for lack of unlock requests. -/
-theorem lock_zero_free (s : St) (h : Int) (k : String) (w : Nat) (hL : s.L = 0) :
-    lockZeroOK s.L (step s h (.removeUnits k w)).2 = true := by
+theorem lock_zero_free (s : St) (h : Int) (k : String) (w : Nat) (hc : Health) (hL : s.L = 0) :
+    lockZeroOK s.L (step s h (.removeUnits k w hc)).2 = true := by
   unfold lockZeroOK
   simp only [hL, decide_true, Bool.not_true, Bool.false_or, decide_eq_true_eq]
   intro hbal
-  have hst : step s h (.removeUnits k w) = ((step s h (.removeUnits k w)).1, .err .bal) := by rw [← hbal]
-  obtain ⟨hr, _⟩ := commit_err (show commit s k (removeUnitsH s.L s.C h (s.lps k) w) = (_, .err .bal) from hst)
+  have hst : step s h (.removeUnits k w hc) = ((step s h (.removeUnits k w hc)).1, .err .bal) := by rw [← hbal]
+  obtain ⟨hr0, _⟩ := commit_err (show commit s k (gate hc (removeUnitsH s.L s.C h (s.lps k) w)) = (_, .err .bal) from hst)
+  have hr := gate_err_bal hr0
   unfold removeUnitsH at hr
   split at hr
   · cases hr
@@ -202,13 +294,14 @@ theorem lock_zero_free (s : St) (h : Int) (k : String) (w : Nat) (hL : s.L = 0) 
           rw [hl, hL] at hr
           exact removeCore_not_bal_of_lock_zero hr
 
-theorem lock_zero_free_wbasis (s : St) (h : Int) (k : String) (wb a : Int) (hL : s.L = 0) :
-    lockZeroOK s.L (step s h (.remove k wb a)).2 = true := by
+theorem lock_zero_free_wbasis (s : St) (h : Int) (k : String) (wb a : Int) (hc : Health) (hL : s.L = 0) :
+    lockZeroOK s.L (step s h (.remove k wb a hc)).2 = true := by
   unfold lockZeroOK
   simp only [hL, decide_true, Bool.not_true, Bool.false_or, decide_eq_true_eq]
   intro hbal
-  have hst : step s h (.remove k wb a) = ((step s h (.remove k wb a)).1, .err .bal) := by rw [← hbal]
-  obtain ⟨hr, _⟩ := commit_err (show commit s k (removeH s.L s.C h (s.lps k) wb a) = (_, .err .bal) from hst)
+  have hst : step s h (.remove k wb a hc) = ((step s h (.remove k wb a hc)).1, .err .bal) := by rw [← hbal]
+  obtain ⟨hr0, _⟩ := commit_err (show commit s k (gate hc (removeH s.L s.C h (s.lps k) wb a)) = (_, .err .bal) from hst)
+  have hr := gate_err_bal hr0
   unfold removeH at hr
   split at hr
   · cases hr
@@ -243,11 +336,11 @@ theorem lock_zero_free_wbasis (s : St) (h : Int) (k : String) (wb a : Int) (hL :
 /-- After the admin changes the periods, the next removal is judged with the NEW lock and cancel
     periods (a request that matured under the old period does not stay matured, and vice versa):
     the rule of `remove_requires_matured` holds with `L'`, `C'`. -/
-theorem param_change_uses_current_L (s s' : St) (h h' : Int) (L' C' : Nat) (k : String) (w : Nat)
-    (hok : step (step s h (.setParams L' C')).1 h' (.removeUnits k w) = (s', .ok)) :
+theorem param_change_uses_current_L (s s' : St) (h h' : Int) (L' C' : Nat) (k : String) (w : Nat) (hc : Health)
+    (hok : step (step s h (.setParams L' C')).1 h' (.removeUnits k w hc) = (s', .ok)) :
     ∃ lp, s.lps k = some lp ∧
       removeOK L' C' h' lp.unlocks (lp.units - unitsOf (s'.lps k)) true = true := by
-  obtain ⟨lp, hlp, _, hr, _⟩ := remove_requires_matured _ s' h' k w hok
+  obtain ⟨lp, hlp, _, hr, _⟩ := remove_requires_matured _ s' h' k w hc hok
   exact ⟨lp, hlp, hr⟩
 
 /-! ### observation outside the envelope (DESIGN 4/C15, candidate): a lock period ≥ 2^63 makes
@@ -263,12 +356,12 @@ theorem lock_period_wrap_observation :
     height 12 is refused, at height 13 accepted; a second removal of 1 unit at 13 is refused (the
     request was consumed) -/
 def exampleHistory : List (Int × Op) :=
-  [(1, .add "p" 100), (10, .unlock "p" 40), (12, .removeUnits "p" 40), (13, .removeUnits "p" 40), (13, .removeUnits "p" 1)]
+  [(1, .add "p" 100), (10, .unlock "p" 40), (12, .removeUnits "p" 40 .pass), (13, .removeUnits "p" 40 .pass), (13, .removeUnits "p" 1 .pass)]
 
 example : heightsMono 0 exampleHistory = true := by decide
-example : (step (run (St.init 3 50) (exampleHistory.take 2)) 12 (.removeUnits "p" 40)).2 = .err .bal := by decide
-example : (step (run (St.init 3 50) (exampleHistory.take 2)) 13 (.removeUnits "p" 40)).2 = .ok := by decide
-example : (step (run (St.init 3 50) (exampleHistory.take 4)) 13 (.removeUnits "p" 1)).2 = .err .bal := by decide
+example : (step (run (St.init 3 50) (exampleHistory.take 2)) 12 (.removeUnits "p" 40 .pass)).2 = .err .bal := by decide
+example : (step (run (St.init 3 50) (exampleHistory.take 2)) 13 (.removeUnits "p" 40 .pass)).2 = .ok := by decide
+example : (step (run (St.init 3 50) (exampleHistory.take 4)) 13 (.removeUnits "p" 1 .pass)).2 = .err .bal := by decide
 example : inEnvelope 3 50 13 [⟨10, 40⟩] = true := by decide
 /-- hypotheses of `remove_refused_when_short` at height 12: nothing usable yet, 40 ≤ 100 units -/
 example : inEnvelope 3 50 12 [⟨10, 40⟩] = true ∧ usable 3 50 12 [⟨10, 40⟩] < 40 := by decide
@@ -276,7 +369,10 @@ example : inEnvelope 3 50 12 [⟨10, 40⟩] = true ∧ usable 3 50 12 [⟨10, 40
 example : usable 3 50 62 [⟨10, 40⟩] = 40 ∧ usable 3 50 63 [⟨10, 40⟩] = 0 := by decide
 /-- the zero-unit record lingers in the store after a removal (it is dropped at the next prune) -/
 example : ((run (St.init 3 50) (exampleHistory.take 4)).lps "p") = some ⟨60, [⟨10, 0⟩]⟩ := by decide
+/-- the same removal when the margin-health stage would queue it: refused, the request is untouched -/
+example : (step (run (St.init 3 50) (exampleHistory.take 2)) 13 (.removeUnits "p" 40 .queue)).2 = .err .queued ∧
+    (step (run (St.init 3 50) (exampleHistory.take 2)) 13 (.removeUnits "p" 40 .queue)).1.lps "p" = some ⟨100, [⟨10, 40⟩]⟩ := by decide
 /-- lock period 0: the same removal needs no request -/
-example : (step (run (St.init 0 50) (exampleHistory.take 1)) 5 (.removeUnits "p" 40)).2 = .ok := by decide
+example : (step (run (St.init 0 50) (exampleHistory.take 1)) 5 (.removeUnits "p" 40 .pass)).2 = .ok := by decide
 
 end Sif.Props.C15
